@@ -101,7 +101,7 @@ def main():
             "engine": c["engine"],
             "level_claimed": {"category": c["cat"], "text": c["text"], "design_ref": c["ref"]},
             "level_note": c["note"],
-            "technique": c["technique"] + ("; plus stateless exploration, under a cooperative scheduler with a scheduling point before every statement of the library (preemption bound 1 / 2), of the interleavings of operation pairs and handler pairs on disjoint objects, each side compared with the sequential run" if pid in ("C01","C05","C06","C07","C08","C09","C10","C11","C12","C14","C16","C17","C18","C20") else ""),
+            "technique": c["technique"] + ("; plus stateless exploration, under a cooperative scheduler with a scheduling point before every statement of the library (preemption bound 1 / 2), of the interleavings of operation pairs and handler pairs on disjoint objects, each side compared with the sequential run" if pid in ("C01","C02","C03","C04","C05","C06","C07","C08","C09","C10","C11","C12","C13","C14","C16","C17","C18","C20") else ""),
         })
     props = [json.loads(l)["id"] for l in open(os.path.join(ROOT, "properties.jsonl"))]
     na = [x for x in NOT_APPLICABLE]
@@ -124,7 +124,7 @@ def main():
             {"name": "refctl", "path": "internal/refctl", "kind_free_text": "independent HAP controller (TLV8, SRP-6a, HKDF, session framing, HTTP/EVENT reader) — the reference model for wire behaviour", "serves_properties": ["C01","C02","C03","C04","C05","C06","C07","C08","C09","C10","C11","C13","C16","C20"]},
             {"name": "world", "path": "internal/world", "kind_free_text": "the real hc IP transport on loopback with scratch storage; panic capture", "serves_properties": ["C01","C02","C03","C04","C09","C10","C11","C13","C14","C20"]},
             {"name": "sched", "path": "internal/sched", "kind_free_text": "cooperative scheduler + iterative preemption-bounding explorer; internal/c08 (writers/readers of a connection) and internal/psched (pairing handlers of several connections) are its harnesses, built into cmd/vsched with the overlay of cmd/mkoverlay", "serves_properties": ["C02","C03","C08"]},
-            {"name": "interf", "path": "internal/interf", "kind_free_text": "non-interference of operations / handlers on disjoint objects under statement-level interleaving (scheduling point before every statement of hc's packages, inserted textually by cmd/mkoverlay \"yield:<pkg>\"); preemption bound 1 / 2; result compared with the solo / sequential run", "serves_properties": ["C01","C05","C06","C07","C08","C09","C10","C11","C12","C14","C16","C17","C18","C20"]},
+            {"name": "interf", "path": "internal/interf", "kind_free_text": "non-interference of operations / handlers on disjoint objects under statement-level interleaving (scheduling point before every statement of hc's packages, inserted textually by cmd/mkoverlay \"yield:<pkg>\"); preemption bound 1 / 2; result compared with the solo / sequential run", "serves_properties": ["C01","C02","C03","C04","C05","C06","C07","C08","C09","C10","C11","C12","C13","C14","C16","C17","C18","C20"]},
             {"name": "fw", "path": "internal/fw", "kind_free_text": "sharded worker processes, merge, known-findings filter, evidence, replay", "serves_properties": props},
         ],
         "checks": checks,
